@@ -996,6 +996,39 @@ def gen_offer_task(sd):
 
 
 
+# ---- sd.py: ServiceSubscriber._subscribe (C14) ----
+def gen_subscribe_task(sd):
+    t = ast.parse(textwrap.dedent(inspect.getsource(sd.ServiceSubscriber._subscribe))).body[0]
+    if not isinstance(t, ast.AsyncFunctionDef) or [a.arg for a in t.args.args] != ["self"]:
+        raise Abort("_subscribe: not a coroutine of self")
+    b = [s for s in body_of(t) if not is_noise(s)]
+    if len(b) != 1 or not isinstance(b[0], ast.While) or b[0].orelse or len(b[0].body) != 3:
+        raise Abort("_subscribe: unexpected shape")
+    expect_src(ast.Expr(b[0].test), "True", "_subscribe (loop)")
+    r = b[0].body
+    expect_src(r[0], """
+        for endpoint, entries in self._group_entries().items():
+            self._send_start_subscribe(endpoint, entries)
+        """, "_subscribe (round)")
+    expect_src(r[1], """
+        if self.timings.SUBSCRIBE_REFRESH_INTERVAL is None:
+            break
+        """, "_subscribe (no refresh)")
+    expect_src(r[2], """
+        try:
+            await asyncio.sleep(self.timings.SUBSCRIBE_REFRESH_INTERVAL)
+        except asyncio.CancelledError:
+            break
+        """, "_subscribe (sleep)")
+    return ["(* ServiceSubscriber._subscribe: one pass of the while loop up to the sleep; a cancellation during the sleep ends the task *)\n"
+            "Definition gen_subscribe_round {W G : Type} (groups : list G) (send_start_subscribe : G -> W -> W)\n"
+            "    (refresh_interval : W -> option N) (finish : W -> W) (sleep : N -> W -> W) (w : W) : W :=\n"
+            "  let w1 := fold_left (fun acc g => send_start_subscribe g acc) groups w in\n"
+            "  match refresh_interval w1 with None => finish w1 | Some r => sleep r w1 end.\n"
+            "Definition gen_subscribe_cancelled_in_sleep_ends : bool := true.\n"]
+
+
+
 # ---- sd.py: ServiceDiscoveryProtocol.send_sd / start / stop (C08, C15) ----
 def kw_of(call, name):
     for k in call.keywords:
@@ -1297,7 +1330,7 @@ def main():
         import someip.config as cfg
         import someip.sd as sd
         import someip.service as svc
-        parts = gen_matchers(cfg) + gen_check_received(sd) + gen_assign_outgoing(sd) + gen_skeletons(sd) + gen_inst_subscribe(sd) + gen_subscriber(sd) + gen_timed_store(sd) + gen_queue_send(sd) + gen_find_answer(sd) + gen_protocol_entry(sd) + gen_send_sd(sd) + gen_announcer(sd) + gen_find_task(sd) + gen_offer_task(sd) + gen_service(svc) + gen_eventgroup_subscription(svc)
+        parts = gen_matchers(cfg) + gen_check_received(sd) + gen_assign_outgoing(sd) + gen_skeletons(sd) + gen_inst_subscribe(sd) + gen_subscriber(sd) + gen_timed_store(sd) + gen_queue_send(sd) + gen_find_answer(sd) + gen_protocol_entry(sd) + gen_send_sd(sd) + gen_announcer(sd) + gen_find_task(sd) + gen_offer_task(sd) + gen_subscribe_task(sd) + gen_service(svc) + gen_eventgroup_subscription(svc)
     except Abort as exc:
         print("gen_logic: ABORT:", exc)
         return 2
